@@ -144,7 +144,8 @@ pub fn sentence_strategy(allow_default_body: bool, exact_units: bool) -> impl St
             .boxed()
     };
     let rep = prop_oneof![3 => (1u32..=5).prop_map(Arg::Times), 1 => prop::sample::select(vec![1000u32, 16_777_216, 16_777_217, 33_554_435, u32::MAX - 1, u32::MAX]).prop_map(Arg::Times), 2 => Just(Arg::Infinite)];
-    let kfs = prop::collection::vec(kf_strategy(allow_default_body), 0..=5);
+    // mostly a handful of keyframes; now and then a long sentence (16-36 keyframe clauses)
+    let kfs = prop_oneof![30 => prop::collection::vec(kf_strategy(allow_default_body), 0..=5), 1 => prop::collection::vec(kf_strategy(allow_default_body), 16..=36)];
     (
         prop::option::weighted(0.8, dur),
         prop::option::weighted(0.4, delay),
